@@ -88,6 +88,26 @@ def try_arms(se, call_bb):
     return None
 
 
+def match_arms(se, call_bb):
+    """the io::Result of a call matched on directly (`match r { Ok(()) => .., Err(e) => Err(e) }`):
+    (None, switch_bb, Ok target, Err target) or None"""
+    info = se.term_info.get(call_bb)
+    if not info:
+        return None
+    ct = strip(info["term"])
+    for bb, i in se.term_info.items():
+        if i.get("k") == "switch":
+            d = strip(i["discr"])
+            if d[0] == "discr" and strip(d[1]) == ct:
+                tg = dict(i["targets"])
+                oth = i.get("otherwise")
+                ok_t = tg.get(0)
+                err_t = tg.get(1, oth if oth is not None and se.body.blocks[oth]["term"]["k"] != "unreachable" else None)
+                if ok_t is not None and err_t is not None:
+                    return None, bb, ok_t, err_t
+    return None
+
+
 def error_arm_clean(se, brk, fn):
     """blocks reachable from the Break arm: only from_residual, no other call; the function
     returns from_residual(..) there"""
@@ -161,6 +181,10 @@ def reader_rule(ctx, rep, half, name, b, expected_reads, helper_names, allow_sec
         arms = try_arms(se, bb)
         if arms is None and len(reads) == 1 and mapped_helper(ctx, rep, se, fn, half, helper_names, bb, bl):
             return
+        matched = False
+        if arms is None:
+            arms = match_arms(se, bb)
+            matched = arms is not None
         if arms is None:
             rep.violation("reader", fn, "read%d-error-propagated" % k, "the io::Result of read_exact is not propagated with `?`", body.loc(bb))
             continue
@@ -185,6 +209,12 @@ def reader_rule(ctx, rep, half, name, b, expected_reads, helper_names, allow_sec
         # `?` plumbing only: the error is handed up - possibly through the `?` of an extracted
         # helper and then the caller's own (branch of the helper's known Err, from_residual again)
         good = bool(calls) and calls[0] == FROM_RES and len(calls) <= 5 and all(c == FROM_RES or c.endswith(" as std::ops::Try>::branch") for c in calls)
+        if matched:
+            # `Err(e) => Err(e)`: nothing is called on that arm, and what it returns is an Err
+            # holding the very error read_exact returned
+            ct_ = strip(se.term_info[bb]["term"])
+            errs_ = [se.assigns[(bi_, si_)][1] for bi_, si_, s_ in util.blocks_constructing(body, "std::result::Result", "Err") if bi_ in seen]
+            good = not calls and len(errs_) == 1 and strip(errs_[0][4][0]) == ("field", ("downcast", ct_, 1), 0)
         rep.check(good, "reader", fn, "read%d-error-propagated" % k, "Err(e) => return Err(e.into()) with nothing else executed", "on a failed read the function executes %s before returning" % calls, body.loc(brk))
     # (iv) success: the helper receives exactly the bytes read
     last = se.term_info[reads[0]]
